@@ -88,6 +88,8 @@ def gen_plan(streams, tier):
                 op["container"] = rnd.choice(("OrderedDict", "defaultdict", "subclass"))
             if rnd.random() < 0.4:
                 op["no_render_after"] = True    # several updates in a row with no render in between
+            if rnd.random() < 0.15:
+                op["kw"] = True
             if rnd.random() < w_break:
                 op["pal"], op["j"], op["how"] = break_palette(rnd, pal, order)
             ops.append(op)
@@ -329,7 +331,10 @@ def execute(plan, ctx):
                 ctx.probe("same_dict_object_passed_again")
             shared_used[0] = True
         try:
-            objs[i].set_HTMLColorResiduePalette(passed)
+            if op.get("kw"):
+                objs[i].set_HTMLColorResiduePalette(colorDict=passed)
+            else:
+                objs[i].set_HTMLColorResiduePalette(passed)
         except Exception as e:
             raised = e
         if op.get("then_mutate"):
